@@ -173,13 +173,22 @@ HARNESSES = [
     dict(name="e2e.init.lh5", src="C01/e2e.c", entry="harness_init", unwindset={"memset.0": 16386, "init_tree.0": 1022}, timeout=300, mem_gb=6,
          units=["lib/lh_new_decoder.c:lha_lh_new_init,init_ring_buffer", "lib/tree_decode.c:init_tree", "lib/bit_stream_reader.c:bit_stream_reader_init"],
          bounds="real -lh5- init, real memset; any window cell / tree cell"),
-    dict(name="e2e.lh5", src="C01/e2e.c", defines=["LENMAX=8", "SPLIT_INIT"], flags=["--arrays-uf-always"], backend="cadical",
-         unwindset={"put.0": 18, "harness.0": 10, "harness.1": 10, "harness.2": 10, "harness.3": 10, "harness.4": 10, "harness.5": 10, "harness.6": 10, "harness.7": 10,
-                    "init_tree.0": 1022, "peek_bits.0": 6, "peek_bits.1": 3, "cb_read.0": 6, "lha_lh_new_read.0": 3,
-                    "copy_from_history.0": 10, "read_from_tree.0": 1, "read_length_value.0": 1, "read_temp_table.0": 1, "read_temp_table.1": 1,
+] + [
+    dict(name="e2e.lh5." + tag, src="C01/e2e.c", defines=["SPLIT_INIT"] + defs, flags=["--arrays-uf-always", "--max-field-sensitivity-array-size", "1100"], backend="cadical",
+         unwindset={"put.0": 18, "harness.0": 42, "harness.1": 10, "harness.2": 10, "harness.3": 260, "harness.4": 10, "harness.5": 10, "harness.6": 260, "harness.7": 10,
+                    "init_tree.0": 1022, "peek_bits.0": 6, "peek_bits.1": 6, "cb_read.0": 6, "lha_lh_new_read.0": 3,
+                    "copy_from_history.0": 260, "read_from_tree.0": 1, "read_length_value.0": 1, "read_temp_table.0": 1, "read_temp_table.1": 1,
                     "read_code_table.0": 1, "read_code_table.1": 1, "read_offset_table.0": 1, "build_tree.0": 1, "add_codes_with_length.0": 1, "expand_queue.0": 1},
-         units=["lib/lh5_decoder.c (whole): lha_lh_new_init, lha_lh_new_read, start_new_block, table readers (n=0 forms), read_from_tree, copy_from_history, bit reader"],
-         timeout=600, mem_gb=6,
-         bounds="real -lh5- read path from the post-init state, no stubs: two blocks with single-symbol tables (symbolic literal, symbolic copy code with length <= 8, symbolic offset symbol 0..14 and extra bits), 2 literals + 2 copies; callback delivers what is asked (short reads: bits.refine)",
-         stubs=["cb_read: symbolic stream with short reads", "init: the post-init state is built directly (window all spaces, position 0, no block open, empty bit buffer, tree contents arbitrary); the real lha_lh_new_init is shown to establish it by e2e.init.lh5"]),
+         units=["lib/lh5_decoder.c (whole read path): lha_lh_new_read, start_new_block, table readers (n=0 forms), set_tree_single, read_from_tree, read_offset_code, copy_from_history, output_byte, bit reader"],
+         timeout=600, mem_gb=6, tier=tier,
+         bounds="real -lh5- read path from the post-init state, no stubs: concrete 13-byte prefix of two blocks with single-symbol tables (%s), then 2 copies whose extra bits (distances) are symbolic" % what,
+         stubs=["cb_read: stream delivered one byte per call",
+                "init: the post-init state is built directly (window all spaces, position 0, no block open, empty bit buffer, tree contents arbitrary); the real lha_lh_new_init is shown to establish it by e2e.init.lh5"])
+    for tag, defs, what, tier in [
+        ("p14", ["LENMAX=8", "C2V=261", "P2V=14"], "2 literals 'A'; copy length 8, offset symbol 14: distances 8192..16383", "both"),
+        ("p3", ["LENMAX=8", "C2V=261", "P2V=3"], "2 literals 'A'; copy length 8, offset symbol 3: distances 4..7 (overlapping copies)", "both"),
+        ("p1", ["LENMAX=8", "C2V=258", "P2V=1", "C1V=0"], "2 literals 0x00; copy length 5, offset symbol 1: distance 1", "thorough"),
+        ("p0", ["LENMAX=8", "C2V=256", "P2V=0", "C1V=255"], "2 literals 0xff; copy length 3, offset symbol 0: distance 0", "thorough"),
+        ("p13.l256", ["LENMAX=256", "C2V=509", "P2V=13"], "2 literals 'A'; copy length 256, offset symbol 13: distances 4096..8191", "thorough"),
+    ]
 ]
